@@ -287,7 +287,7 @@ func loadCorpus() [][]byte {
 // ---------------------------------------------------------------- structured mutation
 
 type FMut struct {
-	K string `json:"k"` // trunc, flip, set, splice, ins, dup, head, len, idx, tag
+	K string `json:"k"` // trunc, flip, set, splice, ins, dup, head, len, idx, tag, cmap, bump2, widen, resize
 	P int    `json:"p"`
 	V int    `json:"v,omitempty"`
 	N int    `json:"n,omitempty"`
@@ -445,6 +445,58 @@ func (c *FCase) bytes() []byte {
 				x := ext[m.V%len(ext)]
 				b[q], b[q+1] = x[0], x[1]
 			}
+		case "resize": // a byte / text string grows or shrinks by 1..8 bytes, head and content changed TOGETHER
+			type cand struct{ p, hl, ln int }
+			var cands []cand
+			for p := 2; p < len(b); p++ {
+				major, ai := b[p]>>5, b[p]&0x1f
+				if major != 2 && major != 3 {
+					continue
+				}
+				hl, ln := 0, 0
+				switch {
+				case ai < 24:
+					hl, ln = 1, int(ai)
+				case ai == 24 && p+1 < len(b):
+					hl, ln = 2, int(b[p+1])
+				case ai == 25 && p+2 < len(b):
+					hl, ln = 3, int(b[p+1])<<8|int(b[p+2])
+				default:
+					continue
+				}
+				if ln >= 1 && p+hl+ln <= len(b) {
+					cands = append(cands, cand{p, hl, ln})
+				}
+			}
+			if len(cands) > 0 {
+				c := cands[m.P%len(cands)]
+				delta := 1 + m.V%8
+				nl := c.ln + delta
+				if m.N%2 == 1 {
+					nl = c.ln - delta
+				}
+				if nl >= 0 && nl < 1<<16 {
+					head := []byte{b[c.p]&0xe0 | 25, byte(nl >> 8), byte(nl)}
+					if nl < 24 && c.hl == 1 {
+						head = []byte{b[c.p]&0xe0 | byte(nl)}
+					} else if nl < 256 && c.hl <= 2 {
+						head = []byte{b[c.p]&0xe0 | 24, byte(nl)}
+					}
+					content := append([]byte(nil), b[c.p+c.hl:c.p+c.hl+c.ln]...)
+					if nl > c.ln {
+						for i := c.ln; i < nl; i++ {
+							content = append(content, byte(mix64(uint64(m.V)+uint64(i))))
+						}
+					} else {
+						content = content[:nl]
+					}
+					nb := append([]byte(nil), b[:c.p]...)
+					nb = append(nb, head...)
+					nb = append(nb, content...)
+					nb = append(nb, b[c.p+c.hl+c.ln:]...)
+					b = nb
+				}
+			}
 		case "splice":
 			o := cp[m.O%len(cp)]
 			if len(o) > 0 {
@@ -477,7 +529,7 @@ var c19Stats struct {
 }
 
 func init() {
-	kinds := []string{"trunc", "flip", "flip", "set", "set", "splice", "ins", "dup", "head", "head", "len", "idx", "idx", "tag", "cmap", "bump2", "widen"}
+	kinds := []string{"trunc", "flip", "flip", "set", "set", "splice", "ins", "dup", "head", "head", "len", "idx", "idx", "tag", "cmap", "bump2", "widen", "resize", "resize"}
 	register(&PropDef{
 		ID:  "C19",
 		New: func() any { return &FCase{} },
@@ -488,11 +540,11 @@ func init() {
 			for i := 0; i < n; i++ {
 				m := FMut{K: rapid.SampledFrom(kinds).Draw(t, "k"), P: rapid.IntRange(0, 1<<16).Draw(t, "p")}
 				switch m.K {
-				case "flip", "set", "head", "len", "ins", "idx", "tag", "cmap", "widen":
+				case "flip", "set", "head", "len", "ins", "idx", "tag", "cmap", "widen", "resize":
 					m.V = rapid.IntRange(0, 255).Draw(t, "v")
 				}
 				switch m.K {
-				case "splice", "ins", "dup", "bump2":
+				case "splice", "ins", "dup", "bump2", "resize":
 					m.N = rapid.IntRange(0, 1<<12).Draw(t, "n")
 				}
 				if m.K == "splice" {
